@@ -370,7 +370,7 @@ Section RoundTrip.
 
   Lemma decode_check_ok h p pad :
     hdr_ok h -> Z.of_nat (length p) mod 4 = 0 -> Z.of_nat (length p) < 2 ^ 31 ->
-    Z.of_nat (length pad) <= c_maxPadding ->
+    c_minPadding <= Z.of_nat (length pad) <= c_maxPadding ->
     (do d <- decode_data (encode_data h (Z.of_nat (length p)) (p ++ pad)); check_lengths d)
     = Ok {| d_hdr := h; d_len := Z.of_nat (length p); d_body := p ++ pad |}.
   Proof.
@@ -383,6 +383,7 @@ Section RoundTrip.
     cbn [bind]. unfold check_lengths. cbn [d_len d_body]. rewrite app_length, Nat2Z.inj_add.
     destruct (Z.ltb_spec (Z.of_nat (length p)) 0); [lia|].
     rewrite Z.rem_mod_nonneg by lia. rewrite H4. cbn [Z.eqb negb].
+    destruct (Z.ltb_spec (Z.of_nat (length p) + Z.of_nat (length pad) - Z.of_nat (length p)) c_minPadding); [lia|].
     destruct (Z.gtb_spec (Z.of_nat (length p) + Z.of_nat (length pad) - Z.of_nat (length p)) c_maxPadding); [lia|].
     reflexivity.
   Qed.
@@ -398,12 +399,13 @@ Section RoundTrip.
       decrypt_msg sha256 aes_dec (other s) k ct = Ok (h, p) /\
       length ct = (24 + 32 + length p + length pad)%nat /\
       (Z.of_nat (length ct) - 24) mod 16 = 0 /\
-      12 <= Z.of_nat (length pad) <= 267 /\ 267 <= c_maxPadding.
+      12 <= Z.of_nat (length pad) <= 267 /\ c_minPadding <= 12 /\ 267 <= c_maxPadding.
   Proof.
     intros Hk Hh H4 Hlt Hr.
     destruct (encrypt_plain_roundtrip s k h (Z.of_nat (length p)) p rnd Hk Hh Hr) as (ct & pad & E & D & L & M & P).
     exists ct, pad. unfold encrypt. unfold encrypt_data in E.
     assert (267 <= c_maxPadding) as HM by (vm_compute; discriminate).
+    assert (c_minPadding <= 12) as Hm by (vm_compute; discriminate).
     rewrite decode_check_ok in D by (try assumption; lia).
     repeat split; try assumption; try lia.
     unfold decrypt_msg. rewrite D. cbn [bind d_hdr]. unfold d_data. cbn [d_len d_body].
